@@ -62,7 +62,7 @@ def run_case(idx, rng, P, rep):
         if kind == 'String':
             return param.String(default=f's{tok()}' if default is None else default), kind
         if kind in ('Number', 'Integer'):
-            return getattr(param, kind)(default=tok() if default is None else default, bounds=(0, None)), kind
+            return getattr(param, kind)(default=tok() if default is None else default, bounds=(0, None), allow_None=True), kind
         return getattr(param, kind)(default=tok() if default is None else default), kind
 
     kinds_of = {}      # name -> kind of the most recent declaration (values follow it)
@@ -88,6 +88,9 @@ def run_case(idx, rng, P, rep):
                 pobj, kind = new_param(kind)
                 kinds_of[n] = kind
                 ns[n] = pobj
+        if ci == 0 and 'x' in ns and 'y' in ns and rng.random() < 0.5:
+            ns['xy'] = param.Composite(attribs=['x', 'y'])      # a computed view of two other parameters
+            rep.count('composite_cases')
         classes.append(type(f'N{idx}_{ci}', bases, ns))
     insts = []
     kinds = []
@@ -103,6 +106,8 @@ def run_case(idx, rng, P, rep):
         g = governing(K, Parameter).get(name)
         if isinstance(g, param.String):
             return f'v{tok()}'
+        if isinstance(g, param.Number) and rng.random() < 0.15:
+            return None         # an explicit None is a value like any other (these numbers allow it)
         return tok()
 
     def stale_suffix(K_or_inst):
@@ -126,7 +131,11 @@ def run_case(idx, rng, P, rep):
                 if K.param.objects(instance=False).get(n) is not Pobj or K.param.objects('existing').get(n) is not Pobj:
                     viol('class/objects-view-differs', f'{step}: {K.__name__}.param.objects()[{n!r}] is not the Parameter that governs {K.__name__}.{n}')
                 attr = getattr(K, n)
-                if got.default != attr:
+                if n == 'xy':
+                    # a Composite has no stored default: the attribute is the list of its constituents on that very class
+                    if attr != [getattr(K, 'x'), getattr(K, 'y')]:
+                        viol('class/composite-differs', f'{step}: {K.__name__}.xy={attr!r} but [x, y]={[getattr(K, "x"), getattr(K, "y")]!r}')
+                elif got.default != attr:
                     viol('class/default-differs', f'{step}: {K.__name__}.param[{n!r}].default={got.default!r} but {K.__name__}.{n}={attr!r}')
                 if n != 'name' and vals.get(n, '<missing>') != attr:
                     viol('class/values-differ', f'{step}: {K.__name__}.param.values()[{n!r}]={vals.get(n, "<missing>")!r} but getattr={attr!r}')
@@ -165,7 +174,9 @@ def run_case(idx, rng, P, rep):
                     viol('instance/serialize-differs', f'{step}: inst{ii}.serialize_parameters()[{n!r}]={ser.get(n, "<missing>")!r} but getattr={attr!r}')
                 if n != 'name' and f'{n}={attr!r}' not in r:
                     viol('instance/repr-differs', f'{step}: repr(inst{ii})={r} does not show {n}={attr!r}')
-                if n in touched:
+                if n == 'xy' and attr != [getattr(o, 'x'), getattr(o, 'y')]:
+                    viol('instance/composite-differs', f'{step}: inst{ii}.xy={attr!r} but [x, y]={[getattr(o, "x"), getattr(o, "y")]!r}')
+                if n in touched and n != 'xy':
                     # reading inst.param[n] is part of the history (it creates the per-instance copy)
                     po = o.param[n]
                     if po.default != getattr(K, n):
@@ -192,7 +203,7 @@ def run_case(idx, rng, P, rep):
             trace.append(('read', K.__name__, how))
         elif c < 0.45:
             gov = governing(K, Parameter)
-            names = [n for n in gov if n != 'name']
+            names = [n for n in gov if n not in ('name', 'xy')]
             if not names:
                 continue
             n = rng.choice(names)
@@ -208,7 +219,7 @@ def run_case(idx, rng, P, rep):
         elif c < 0.53:
             # a class-level assignment that fails: the value is rejected by validation, or a class-level watcher raises
             gov = governing(K, Parameter)
-            names = [n for n in gov if n != 'name']
+            names = [n for n in gov if n not in ('name', 'xy')]
             if not names:
                 continue
             n = rng.choice(names)
@@ -281,7 +292,7 @@ def run_case(idx, rng, P, rep):
                 kw = {}
                 gov = governing(K, Parameter)
                 for n in gov:
-                    if n != 'name' and rng.random() < 0.4:
+                    if n not in ('name', 'xy') and rng.random() < 0.4:
                         kw[n] = value_for(n, K)
                 insts.append((K(**kw), set()))
                 trace.append(('new_instance', K.__name__, kw))
@@ -289,7 +300,7 @@ def run_case(idx, rng, P, rep):
             if insts:
                 o, touched = rng.choice(insts)
                 gov = governing(type(o), Parameter)
-                names = [n for n in gov if n != 'name']
+                names = [n for n in gov if n not in ('name', 'xy')]
                 if names:
                     n = rng.choice(names)
                     v = value_for(n, type(o))
@@ -310,11 +321,13 @@ def run_case(idx, rng, P, rep):
         else:
             # watcher probe at class level: watch through the namespace, set through the attribute
             gov = governing(K, Parameter)
-            names = [n for n in gov if n != 'name']
+            names = [n for n in gov if n not in ('name', 'xy')]
             if not names:
                 continue
             n = rng.choice(names)
             v = value_for(n, K)
+            if v is None and getattr(K, n) is None:
+                v = tok()       # (the probe needs a change)
             got = []
             kinds.append('watch_probe')
             rep.count('watch_probes')
